@@ -19,11 +19,21 @@ import (
 	"time"
 )
 
+// VerifRoot is /verif, or the snapshot of it the check was started from (bin/check exports VERIF_ROOT).
+var VerifRoot = func() string {
+	if r := os.Getenv("VERIF_ROOT"); r != "" {
+		return r
+	}
+	return "/verif"
+}()
+
+var (
+	FindingsFile = VerifRoot + "/known_findings.txt"
+	EvidenceDir  = VerifRoot + "/evidence"
+	ReplayDir    = VerifRoot + "/replays"
+)
+
 const (
-	VerifRoot     = "/verif"
-	FindingsFile  = VerifRoot + "/known_findings.txt"
-	EvidenceDir   = VerifRoot + "/evidence"
-	ReplayDir     = VerifRoot + "/replays"
 	maxViolations = 20
 	maxSamples    = 6
 )
@@ -69,8 +79,40 @@ type Run struct {
 }
 
 var (
-	flagTier = flag.String("tier", "", "quick|thorough (default: $VERIF_TIER or quick)")
+	flagTier   = flag.String("tier", "", "quick|thorough (default: $VERIF_TIER or quick)")
+	flagReplay = flag.String("replay", "", "replay file written for a violation: re-execute that case and print what happens")
 )
+
+// ReplayRequested returns the violation stored in the file given with -replay.
+func ReplayRequested() (*Violation, bool) {
+	if *flagReplay == "" {
+		return nil, false
+	}
+	b, err := os.ReadFile(*flagReplay)
+	if err != nil {
+		Fatal("replay: %v", err)
+	}
+	var v Violation
+	if err := json.Unmarshal(b, &v); err != nil {
+		Fatal("replay: %v", err)
+	}
+	fmt.Printf("REPLAY %s\n  part: %s\n  signature: %s\n  recorded message: %s\n", *flagReplay, v.Part, v.Sig, v.Msg)
+	return &v, true
+}
+
+// ReplayField extracts a field of the replay artefact.
+func (v *Violation) ReplayField(name string, into any) bool {
+	m, ok := v.Replay.(map[string]any)
+	if !ok {
+		return false
+	}
+	f, ok := m[name]
+	if !ok {
+		return false
+	}
+	b, _ := json.Marshal(f)
+	return json.Unmarshal(b, into) == nil
+}
 
 // Start begins a run. Call flag.Parse() before.
 func Start(id string) *Run {
